@@ -509,7 +509,16 @@ pub fn generate(seed: u64, tier: &str, property: &str) -> RegScenario {
         } else if roll < 67 {
             h.push(Op::SetDelimsLate { delims: Delims::set(rng.below(Delims::N_SETS)) }, Some("late-set-delimiters"), false);
         } else if roll < 71 {
-            h.push(Op::SetPrefixesLate { prefixes: vec!["late/".to_string()] }, Some("late-set-fallback-prefixes"), false);
+            // (every list must be refused once templates exist: a new one, the empty one, the
+            // current one, the current one reversed)
+            let cur = h.g.cfg.prefixes.clone();
+            let list = match rng.below(4) {
+                0 => vec![],
+                1 => cur.clone(),
+                2 => cur.iter().rev().cloned().collect(),
+                _ => vec!["late/".to_string()],
+            };
+            h.push(Op::SetPrefixesLate { prefixes: list }, Some("late-set-fallback-prefixes"), false);
         } else if roll < 75 && !cloned {
             cloned = true;
             h.push(if rng.chance(1, 3) { Op::CloneKeep } else { Op::CloneSwap }, None, false);
